@@ -4,7 +4,7 @@ from concurrent.futures import ThreadPoolExecutor
 from . import tlc
 from .cooc_cfg import tla_cfg
 
-INVS = ["Refines", "BeforeIsTransposeOfAfter", "WindowMassOne", "ShiftInvariant", "MaskKeepsPositions", "NullifyRemovesOnlyTheMask"]
+INVS = ["Refines", "BeforeIsTransposeOfAfter", "WindowMassOne", "ShiftInvariant", "MaskKeepsPositions", "NullifyRemovesOnlyTheMask", "ThreshOK"]
 
 
 def emit(ctx, V, maxlen, maxdocs, cfgs, what, module="Cooc", simulate=None, depth=None, seed=0, shards=8,
@@ -18,7 +18,7 @@ def emit(ctx, V, maxlen, maxdocs, cfgs, what, module="Cooc", simulate=None, dept
         const = dict(V=V, Cfgs=sub, EMIT=True)
         if module == "Cooc":
             const.update(MaxLen=maxlen, MaxDocs=maxdocs, TIMED=False, Gaps=tlc.TLAExpr("{1}"),
-                         Prunes=[{"excluded": tlc.TLAExpr("{}"), "mask": False}])
+                         Prunes=[{"excluded": tlc.TLAExpr("{}"), "mask": False}], Eps=[])
         if extra_constants:
             const.update(extra_constants)
         r = tlc.run_tlc(module, const, invariants=list(invariants) + ["EmitInv"], workers=1,
